@@ -7,7 +7,7 @@ import json,os,subprocess,shutil,glob
 fp=json.load(open('/verif/tools/func_props.json'))
 import sys
 only=sys.argv[1:]
-for d in sorted(glob.glob('/verif/harmless/*_*')+glob.glob('/verif/harmless2/*_*')+glob.glob('/verif/harmless3/*_*')):
+for d in sorted(glob.glob('/verif/harmless/*_*')+glob.glob('/verif/harmless2/*_*')+glob.glob('/verif/harmless3/*_*')+glob.glob('/verif/harmless4/*_*')+glob.glob('/verif/harmless5/*_*')):
     if only and os.path.relpath(d,'/verif') not in only: continue
     r=json.load(open(d+'/result.json')); fn=r['function']
     props=sorted(set(fp.get(fn) or list(r['checks'])))
